@@ -536,7 +536,9 @@ func ruleR12fInto(h *H, rule string) {
 	ir.Instrs(f, func(in ssa.Instruction) {
 		if c, ok := in.(*ssa.Call); ok {
 			if b, isB := c.Call.Value.(*ssa.Builtin); isB && b.Name() == "append" && inLoop[in.Block()] {
-				if sl, isSl := c.Type().Underlying().(interface{ Elem() interface{ String() string } }); isSl {
+				if sl, isSl := c.Type().Underlying().(interface {
+					Elem() interface{ String() string }
+				}); isSl {
 					_ = sl
 				}
 				if strings.HasPrefix(c.Type().String(), "[]string") {
